@@ -109,8 +109,22 @@ theorem queried_own (env : Env) (s : DState) (r : Req) (hown : s.session = some 
   unfold queried
   simp [ho]
 
+theorem stepS_closeBegin_d (env : Env) (st : SState) (c : ConnId) : (stepS env st (.closeBegin c)).d = st.d := by
+  simp only [stepS]; split <;> rfl
+
+theorem stepS_closeBegin_log (env : Env) (st : SState) (c : ConnId) : (stepS env st (.closeBegin c)).log = st.log := by
+  simp only [stepS]; split <;> rfl
+
+theorem stepS_closeBegin_sent (env : Env) (st : SState) (c : ConnId) :
+    (stepS env st (.closeBegin c)).sent = st.sent := by
+  simp only [stepS]; split <;> rfl
+
+theorem stepS_closeBegin_adding (env : Env) (st : SState) (c : ConnId) :
+    (stepS env st (.closeBegin c)).adding = st.adding := by
+  simp only [stepS]; split <;> rfl
+
 /-- the tree state of a small-step history is that of its tree operations (`addBegin n` acts as
-`initialized n false`; carriers and `addEnd` do not touch it) -/
+`initialized n false`; carriers, `addEnd` and `closeBegin` do not touch it) -/
 theorem runS_state (env : Env) (h : List SOp) : (runS env h).d = run (treeOps h) := by
   unfold runS run
   suffices ∀ (st : SState), (h.foldl (stepS env) st).d = (treeOps h).foldl step st.d from this SState.init
@@ -123,6 +137,7 @@ theorem runS_state (env : Env) (h : List SOp) : (runS env h).d = run (treeOps h)
     | search r => simp only [List.foldl_cons, treeOps, ih, stepS]
     | addBegin n => simp only [List.foldl_cons, treeOps, ih, stepS]
     | addEnd c => simp only [List.foldl_cons, treeOps, ih, stepS]
+    | closeBegin c => simp only [List.foldl_cons, treeOps, ih, stepS_closeBegin_d]
 
 theorem runS_append (env : Env) (h : List SOp) (op : SOp) :
     runS env (h ++ [op]) = stepS env (runS env h) op := by
@@ -166,6 +181,7 @@ theorem history_aux (env : Env) (h pre : List SOp) (e : Req × List Out)
       | tree op => exact Or.inl h1
       | addBegin n => exact Or.inl h1
       | addEnd c => exact Or.inl h1
+      | closeBegin c => rw [stepS_closeBegin_log] at h1; exact Or.inl h1
       | search r =>
         simp only [stepS] at h1
         rcases List.mem_append.1 h1 with h1 | h1
@@ -176,6 +192,102 @@ theorem history_aux (env : Env) (h pre : List SOp) (e : Req × List Out)
     · refine Or.inr ⟨op :: h', (List.cons_prefix_cons).2 ⟨rfl, hp⟩, ?_⟩
       rw [heq, List.append_assoc]
       rfl
+
+/-- entries of the log of written frames: what was queued in the state before the carrier, minus the frames for the
+connections that were closing then -/
+theorem sent_aux (env : Env) (h pre : List SOp) (e : Req × List Out)
+    (he : e ∈ (h.foldl (stepS env) (runS env pre)).sent) :
+    e ∈ (runS env pre).sent ∨
+      ∃ h', h' <+: h ∧
+        e.2 = written (runS env (pre ++ h')).closing (handle env (runS env (pre ++ h')).d e.1) := by
+  induction h generalizing pre with
+  | nil => exact Or.inl he
+  | cons op h ih =>
+    rw [List.foldl_cons, ← runS_append] at he
+    rcases ih (pre ++ [op]) he with h1 | ⟨h', hp, heq⟩
+    · rw [runS_append] at h1
+      cases op with
+      | tree op => exact Or.inl h1
+      | addBegin n => exact Or.inl h1
+      | addEnd c => exact Or.inl h1
+      | closeBegin c => rw [stepS_closeBegin_sent] at h1; exact Or.inl h1
+      | search r =>
+        simp only [stepS] at h1
+        rcases List.mem_append.1 h1 with h1 | h1
+        · exact Or.inl h1
+        · rw [List.mem_singleton] at h1
+          subst h1
+          exact Or.inr ⟨[], List.nil_prefix, by rw [List.append_nil]⟩
+    · refine Or.inr ⟨op :: h', (List.cons_prefix_cons).2 ⟨rfl, hp⟩, ?_⟩
+      rw [heq, List.append_assoc]
+      rfl
+
+/-! ### frames refused on closing connections -/
+
+theorem written_nil (outs : List Out) : written [] outs = outs := by
+  unfold written
+  rw [List.filter_eq_self]
+  intro o _
+  cases o <;> simp [refused]
+
+/-- per connection: nothing is written to a closing connection, the others are unaffected -/
+theorem countP_written (closing : List ConnId) (outs : List Out) (c : ConnId) :
+    (written closing outs).countP (Out.toConn c) = if c ∈ closing then 0 else outs.countP (Out.toConn c) := by
+  unfold written
+  induction outs with
+  | nil => simp
+  | cons o outs ih =>
+    by_cases hr : refused closing o = true
+    · have hf : List.filter (fun o => !refused closing o) (o :: outs) =
+          List.filter (fun o => !refused closing o) outs := by
+        simp [hr]
+      rw [hf, ih, List.countP_cons]
+      by_cases hc : c ∈ closing
+      · simp [hc]
+      · -- a refused frame goes to a closing connection, `c` is not one
+        have hne : Out.toConn c o = false := by
+          cases o with
+          | reply to t me v l => rfl
+          | fwd d unk u t q =>
+            have hd : d ∈ closing := by simpa [refused] using hr
+            simp only [Out.toConn, beq_eq_false_iff_ne, ne_eq]
+            intro e; subst e; exact hc hd
+        simp [hc, hne]
+    · have hr' : refused closing o = false := by simpa using hr
+      have hf : List.filter (fun o => !refused closing o) (o :: outs) =
+          o :: List.filter (fun o => !refused closing o) outs := by
+        simp [hr']
+      rw [hf, List.countP_cons, ih, List.countP_cons]
+      by_cases hc : c ∈ closing
+      · -- a frame that is not refused does not go to the closing connection `c`
+        have hne : Out.toConn c o = false := by
+          cases o with
+          | reply to t me v l => rfl
+          | fwd d unk u t q =>
+            have hd : d ∉ closing := by simpa [refused] using hr'
+            simp only [Out.toConn, beq_eq_false_iff_ne, ne_eq]
+            intro e; subst e; exact hd hc
+        simp [hc, hne]
+      · simp [hc]
+
+/-- the reply is never refused on account of a closing distributed connection -/
+theorem reply_sub_written (env : Env) (s : DState) (r : Req) (closing : List ConnId) (o : Out)
+    (ho : o ∈ reply env s r) : o ∈ written closing (handle env s r) := by
+  unfold written handle
+  rw [List.mem_filter]
+  refine ⟨List.mem_append_right _ ho, ?_⟩
+  unfold reply at ho
+  split at ho
+  · split at ho
+    · dsimp only at ho
+      split at ho
+      · simp at ho
+      · rw [List.mem_singleton] at ho; subst ho; rfl
+    · simp at ho
+  · simp at ho
+
+theorem written_sub (closing : List ConnId) (outs : List Out) (o : Out) (ho : o ∈ written closing outs) :
+    o ∈ outs := (List.mem_filter.1 ho).1
 
 /-! ### a child stays a child for as long as its connection is registered -/
 
@@ -540,6 +652,11 @@ theorem stepS_addingOK (env : Env) (st : SState) (op : SOp) (hi : Inv st.d) (h :
   | addEnd x =>
     intro c hc
     exact h c (List.mem_of_mem_erase hc)
+  | closeBegin x =>
+    intro c hc
+    rw [stepS_closeBegin_adding] at hc
+    rw [stepS_closeBegin_d]
+    exact h c hc
 
 theorem runS_inv (env : Env) (h : List SOp) : Inv (runS env h).d := by
   rw [runS_state]; exact run_inv _
@@ -550,6 +667,7 @@ theorem stepS_inv (env : Env) (st : SState) (op : SOp) (hi : Inv st.d) : Inv (st
   | search r => exact hi
   | addBegin n => exact step_inv st.d (.initialized n false) hi
   | addEnd c => exact hi
+  | closeBegin c => rw [stepS_closeBegin_d]; exact hi
 
 theorem runS_addingOK (env : Env) (h : List SOp) : AddingOK (runS env h) := by
   unfold runS
@@ -558,5 +676,71 @@ theorem runS_addingOK (env : Env) (h : List SOp) : AddingOK (runS env h) := by
   induction h with
   | nil => intro st _ h; exact h
   | cons op h ih => intro st hi hok; exact ih _ (stepS_inv env st op hi) (stepS_addingOK env st op hi hok)
+
+/-! ### connections between CLOSING and CLOSED -/
+
+/-- every closing connection is still registered, and none is listed twice -/
+def ClosingOK (st : SState) : Prop := (∀ c, c ∈ st.closing → c ∈ st.d.live) ∧ st.closing.Nodup
+
+theorem stillAdding_live (l : List ConnId) (d' : DState) : ∀ c, c ∈ stillAdding l d' → c ∈ d'.live := by
+  intro c hc
+  unfold stillAdding at hc
+  simpa using (List.mem_filter.1 hc).2
+
+theorem stepS_closingOK (env : Env) (st : SState) (op : SOp) (h : ClosingOK st) : ClosingOK (stepS env st op) := by
+  cases op with
+  | tree op => exact ⟨stillAdding_live _ _, h.2.filter _⟩
+  | search r => exact h
+  | addBegin n => exact ⟨stillAdding_live _ _, h.2.filter _⟩
+  | addEnd x => exact h
+  | closeBegin x =>
+    simp only [stepS]
+    split
+    · rename_i hx
+      refine ⟨fun c hc => ?_, ?_⟩
+      · rcases List.mem_append.1 hc with hc | hc
+        · exact h.1 c hc
+        · rw [List.mem_singleton] at hc; subst hc; exact hx.1
+      · refine List.nodup_append.2 ⟨h.2, by simp, ?_⟩
+        intro a ha b hb
+        rw [List.mem_singleton] at hb
+        subst hb
+        intro e; subst e; exact hx.2 ha
+    · exact h
+
+theorem runS_closingOK (env : Env) (h : List SOp) : ClosingOK (runS env h) := by
+  unfold runS
+  suffices ∀ (st : SState), ClosingOK st → ClosingOK (h.foldl (stepS env) st) from
+    this SState.init ⟨by intro c hc; simp [SState.init] at hc, by simp [SState.init]⟩
+  induction h with
+  | nil => intro st h; exact h
+  | cons op h ih => intro st hok; exact ih _ (stepS_closingOK env st op hok)
+
+theorem treeOps_append (h1 h2 : List SOp) : treeOps (h1 ++ h2) = treeOps h1 ++ treeOps h2 := by
+  induction h1 with
+  | nil => rfl
+  | cons op h ih => cases op <;> simp [treeOps, ih]
+
+/-- the CLOSED notification ends the window: the connection is not closing any more -/
+theorem closed_not_closing (env : Env) (h : List SOp) (c : ConnId) :
+    c ∉ (runS env (h ++ [.tree (.closed c)])).closing := by
+  intro hc
+  have hl := (runS_closingOK env (h ++ [.tree (.closed c)])).1 c hc
+  rw [runS_state] at hl
+  have : treeOps (h ++ [SOp.tree (.closed c)]) = treeOps h ++ [.closed c] := by
+    rw [treeOps_append]; rfl
+  rw [this, run_append] at hl
+  have hnd := (run_inv (treeOps h)).str.liveNodup
+  have hnot : c ∉ (closePeer (run (treeOps h)) c).live := by
+    unfold closePeer
+    split
+    · intro hm
+      have hm' : c ∈ (run (treeOps h)).live.erase c := by
+        by_cases hp : (run (treeOps h)).parent = some c
+        · simp only [if_pos hp] at hm; simpa using hm
+        · simp only [if_neg hp] at hm; exact hm
+      exact (hnd.mem_erase_iff.1 hm').1 rfl
+    · assumption
+  exact hnot hl
 
 end AioslskVerif.DistSearch
